@@ -356,6 +356,23 @@ class Models:
                 out.append((s2, c.I.cint(-1, a.ty)))
             return out
 
+        @regp(r'^core::num::<impl i\d+>::(div_euclid|rem_euclid)$')
+        def euclid(c):
+            a, b = c.args
+            lo, hi = c.st.num.rng(b.form)
+            if lo != hi or lo <= 0:
+                M.pcall(c.I, c.st, c.body, c.bbi, c.t, 'euclidean division by zero / overflow', lo > 0 or hi < -1, f"divisor in [{lo}, {hi}]")
+                return c.I.top(c.st, c.dty, 'euclid')
+            k = lo
+            # a = k*q + r with 0 <= r < k (floor division): q is a fresh symbol tied to a by two facts
+            alo, ahi = c.st.num.rng(a.form)
+            q = c.I.fresh_int(c.st, a.ty, 'fdiv', alo // k, ahi // k)
+            r = a.form.sub(q.form.scale(k))
+            outs = c.I.assume(c.st, ('and', ('cmp', 'ge', r, Form.const(0)), ('cmp', 'le', r, Form.const(k - 1))), True)
+            if c.c['decl'].endswith('div_euclid'):
+                return [(s2, q) for s2 in outs]
+            return [(s2, VInt(r, a.ty)) for s2 in outs]
+
         @regp(r'^core::num::<impl i\d+>::unsigned_abs$')
         def uabs(c):
             a = c.args[0]
@@ -418,6 +435,8 @@ class Models:
         def pne(c):
             a = M.deref(c.I, c.st, c.args[0])
             b = M.deref(c.I, c.st, c.args[1])
+            if (c.c.get('args') or [''])[0] == 'date::WeekDay':
+                c.st.notes['dowcmp'] = c.st.notes.get('dowcmp', 0) + 1
             if isinstance(a, VAdt) and isinstance(b, VAdt) and a.single() is not None and b.single() is not None:
                 if not a.variants[a.single()] and not b.variants[b.single()]:
                     return VBool(a.single() != b.single())
